@@ -42,6 +42,92 @@ func Minimise(t *testing.T, plan *Plan, want *Violation, opts Opts, maxExec int,
 		}
 		return false
 	}
+	// concurrent plans: drop whole tasks, then single operations of each task
+	if len(best.Tasks) > 0 {
+		for ti := len(best.Tasks) - 1; ti >= 0 && len(best.Tasks) > 1; ti-- {
+			if ti >= len(best.Tasks) {
+				continue
+			}
+			c := best.Clone()
+			c.Tasks = append(append([]TaskPlan{}, c.Tasks[:ti]...), c.Tasks[ti+1:]...)
+			try(c)
+		}
+		for ti := range best.Tasks {
+			for si := len(best.Tasks[ti].Steps) - 1; si >= 0; si-- {
+				if si >= len(best.Tasks[ti].Steps) {
+					continue
+				}
+				c := best.Clone()
+				s := c.Tasks[ti].Steps
+				c.Tasks[ti].Steps = append(append([]Step{}, s[:si]...), s[si+1:]...)
+				try(c)
+			}
+			for si := len(best.Tasks[ti].Setup) - 1; si >= 0; si-- {
+				if si >= len(best.Tasks[ti].Setup) {
+					continue
+				}
+				c := best.Clone()
+				s := c.Tasks[ti].Setup
+				c.Tasks[ti].Setup = append(append([]SetupOp{}, s[:si]...), s[si+1:]...)
+				try(c)
+			}
+		}
+		if best.Slots > 1 {
+			c := best.Clone()
+			c.Slots = 1
+			try(c)
+		}
+		return best, bestRes, execs
+	}
+	// upload plans: simpler arguments
+	if best.Upload != nil {
+		simplify := []func(u *UploadPlan) bool{
+			func(u *UploadPlan) bool { ok := u.CloseDelayNS > 1; u.CloseDelayNS = 1; return ok },
+			func(u *UploadPlan) bool {
+				ok := u.ClosePolicy == "async"
+				u.ClosePolicy = "before-return"
+				u.CloseDelayNS = 0
+				return ok
+			},
+			func(u *UploadPlan) bool { ok := u.ReadLatencyNS > 0; u.ReadLatencyNS = 0; return ok },
+			func(u *UploadPlan) bool { ok := u.AnswerDelayNS > 1; u.AnswerDelayNS = 1; return ok },
+			func(u *UploadPlan) bool { ok := u.DAVError; u.DAVError = false; return ok },
+			func(u *UploadPlan) bool {
+				ok := false
+				for i := range u.PausesNS {
+					ok = ok || u.PausesNS[i] > 0
+					u.PausesNS[i] = 0
+				}
+				return ok
+			},
+			func(u *UploadPlan) bool {
+				ok := u.Size > 8
+				if ok {
+					u.Size = 8
+					u.Writes = []int{8}
+					u.PausesNS = []int64{0, 0}
+					if u.ReadBytes > 4 {
+						u.ReadBytes = 4
+					}
+				}
+				return ok
+			},
+			func(u *UploadPlan) bool {
+				ok := len(u.Writes) > 1
+				u.Writes = []int{u.Size}
+				u.PausesNS = []int64{0, 0}
+				return ok
+			},
+			func(u *UploadPlan) bool { ok := u.CancelAtNS > 0; u.CancelAtNS = -1; return ok && u.Action != "stall" },
+		}
+		for _, f := range simplify {
+			c := best.Clone()
+			if f(c.Upload) {
+				try(c)
+			}
+		}
+		return best, bestRes, execs
+	}
 	// 1. cut everything after the failing step
 	if v := sameFailure(bestRes, want); v != nil && v.Step+1 < len(best.Steps) {
 		c := best.Clone()
